@@ -10,7 +10,7 @@ MANIFEST = dict(
           "the check measures three sizes on a geometric ladder and requires the growth exponent of the increments to stay below 1.5 (linear 1.0, n log n about 1.1, quadratic 2.0), attributing a violation to the function whose statements grow fastest. "
           "Model/Cost.v models the position conversion every token goes through — the stage that made tokenizing quadratic on the pinned tree — in its rescanning and its resume-point form with their loop-body counts; proved: both forms return the same line/column for every query list in any order, "
           "one tokenizer run (increasing offsets) costs at most 1 + lines + 2*bytes loop iterations whatever the number of tokens, and the rescanning form costs exactly k + d*k*(k-1)/2 on k queries spaced d apart (quadratic); also restated from the other models: the token loop needs at most |bs|+1 iterations, the statement loops at most |tokens|+1, the extractors visit each node once. "
-          "The model is tied to the code on every run: real toSQLPosition answers for forward, backward and scrambled query lists are compared with the model's, and the measured loop-body executions inside toSQLPosition must respect the proved bound."),
+          "The model is tied to the code on every run: the answers of the real position conversion (toSQLPosition today; found by its role - the method of the tokenizer that turns an offset into a models.Location over the line-start table, which is what the verification hook calls - not by its name) for forward, backward and scrambled query lists are compared with the model's, and the measured loop-body executions inside that function and the helpers it calls must respect the proved bound."),
     note=common.BASE_NOTE + "Statement counts are the work measure (not CPU time); stages other than position conversion are covered by measurement on the family catalogue, not by a theorem; sizes explored are stated in the evidence.",
     design="6/C20")
 
